@@ -43,24 +43,38 @@ def combos():
 
 
 QUICK_D = {("combine_over_u", 1), ("combine_in_u", 1), ("combine_add_u", 0), ("combine_over_ca", 2),
-           ("combine_atop_reverse_ca", 2), ("combine_src_u", 1), ("combine_screen_u", 0)}
+           ("combine_src_u", 1), ("combine_screen_u", 0)}
 
 
 def jobs(tier):
     js = [Job("lemmas", "C01/lemmas.c", kind="proof", functions=["MUL_UN8", "DIV_ONE_UN8", "UN8x4_MUL_UN8", "UN8x4_MUL_UN8x4",
                                                                 "UN8x4_ADD_UN8x4"],
               domain="all a,b in 2^8; all x,y in 2^32", timeout=300, solver="kissat", min_props=8)]
+    js.append(Job("glue.optables", "C01/optables.c", kind="proof",
+                  functions=["operator_needs_division", "op_flags", "_pixman_setup_combiner_functions_32"],
+                  domain="every operator code", timeout=300, min_props=20))
+    for op, code in PD[:13]:
+        for mode in (0, 1, 2):
+            for side in (0, 1):
+                if (tier == "quick" and mode == 0) or (op == "dst" and mode == 2):
+                    continue
+                js.append(Job("glue.opflags.%s.m%d.%s" % (op, mode, "dst" if side else "src"), "C01/opflags.c",
+                              defines={"VC_OPA": op.upper(), "VC_FN": fn_name(op, mode), "VC_MODE": mode, "VC_SIDE": side},
+                              kind="proof", functions=["op_flags", fn_name(op, mode)],
+                              domain="one pixel, every (s,m,d) and every alternative value of the hinted image",
+                              timeout=600, min_props=2, unwind=2))
     for fn, op, code, mode in combos():
         pdf = code >= 14
         # loop-free, full domain, replayable: one pixel, one channel per query (+ one frame query)
         for ch in (0, 1, 2, 3, 4):
-            if tier == "quick" and ch in (0, 2):
-                continue
+            if tier == "quick" and (ch in (0, 2) or (pdf and ch == 1) or
+                                    (mode == 2 and ch == 1 and op in ("multiply", "atop", "atop_reverse", "xor"))):
+                continue  # PDF colour channels take 5-15 min each, the 3-product CA ones 2-5 min: thorough tier only
             js.append(Job("px.%s.m%d.ch%d" % (fn, mode, ch), "C01/combine_px.c",
                           defines={"VC_FN": fn, "VC_OP": code, "VC_MODE": mode, "VC_CH": ch},
                           kind="proof", functions=[fn],
                           domain="width 1, every (s,m,d) in 2^96, " + ("channel %d" % ch if ch < 4 else "frame: neighbours/src/mask unchanged"),
-                          timeout=900 if pdf else 400, min_props=2,
+                          timeout=(3600 if ch < 3 else 900) if pdf else 900, min_props=1,
                           unwind=2 if n_loops(fn) else None,
                           assumptions=(["PDF blend modes: spec stated for premultiplied pixels only (channel <= alpha)"] if pdf else [])))
         # unbounded scanline contract (route D), one channel per query
@@ -68,7 +82,7 @@ def jobs(tier):
         if tier == "quick":
             if (fn, mode) not in QUICK_D:
                 continue
-            chans = (1, 3)
+            chans = (3,) if mode == 2 else (1, 3)
         if pdf and tier == "quick":
             chans = (3,)
         for ch in chans:
@@ -79,7 +93,7 @@ def jobs(tier):
                           loops={fn: [loop_tpl() for _ in range(nl)]} if nl else {},
                           kind="proof", functions=[fn],
                           domain="any width <= 2^20 (loop contract, no unwinding), any pixel values, ghost pixel gk, channel %d; frame: assigns dest[0..width) only" % ch,
-                          timeout=900, solver="kissat", min_props=10))
+                          timeout=1500, solver="kissat", min_props=10))
     return js
 
 
